@@ -129,9 +129,13 @@ func VerifC08Life() {
 			life.script <- mk(&hagallpb.EntityDeleteRequest{Type: hagallpb.MsgType_MSG_TYPE_ENTITY_DELETE_REQUEST, Timestamp: vts(), RequestId: 4, EntityId: 77})
 		}
 	}
-	ending := verifnd.Choice(3)
+	ending := verifnd.Choice(4)
 	endName := "client_closes"
 	switch ending {
+	case 3:
+		// the client stays connected and the idle period never elapses: nothing may end the connection, unless
+		// one of its own requests failed in the handler
+		endName = "stays_connected"
 	case 0:
 		close(life.closedByCli)
 	case 1:
@@ -151,6 +155,22 @@ func VerifC08Life() {
 			Handle(context.Background(), conn, h)
 			close(done)
 		}()
+		if ending == 3 {
+			verifnd.Quiesce()
+			stillRunning := true
+			select {
+			case <-done:
+				stillRunning = false
+			default:
+			}
+			// an empty receipt fails in the handler; an entity delete from a connection that is in no session is a protocol error
+			failing := burst > 0 && (kind == 1 || (kind == 2 && !join))
+			verifnd.Assert(verifnd.Iff(!failing, stillRunning), "C08.life.no_spurious_disconnect", endName)
+			if stillRunning {
+				verifnd.Assert(life.disconnects == 0 && verifnd.Gauge("ws_connected_clients") == g0+1, "C08.life.connected_while_running", endName)
+				close(life.closedByCli)
+			}
+		}
 		if ending == 1 {
 			// the client stays silent: time passes; whenever everything is blocked another idle period elapses
 			for i := 0; i < 14; i++ {
